@@ -207,8 +207,10 @@ def explain(cell: Cell, canonical, got):
         preds[name] = {v: pred(cell, v) for v in canonical}
     gains = {name: ({v for v in gained if gain(cell, v)} if gain else set()) for name, _p, gain in DEVIATIONS}
     names = [n for n, _p, _g in DEVIATIONS if any(preds[n].values()) or gains[n]]
-    for r in range(1, len(names) + 1):
-        for subset in itertools.combinations(names, r):
+    from vf.engine import deviation_sets
+
+    for subset in deviation_sets("C09", names):
+        if True:
             ok = all(any(preds[n][v] in ("lost", "any") for n in subset) for v in lost)
             # a violation that survived (also partially, for duplicates) must not be predicted lost
             ok = ok and not any(preds[n][v] == "lost" for n in subset for v in kept)
